@@ -462,8 +462,8 @@ def run_job(job: dict) -> dict:
     raise ValueError(entry)
 
 
-def fresh_process(jobs: list[dict], timeout: float = 300) -> list[dict] | None:
-    env = dict(os.environ, PYTHONDONTWRITEBYTECODE="1", PYTHONHASHSEED="0")
+def fresh_process(jobs: list[dict], timeout: float = 300, hashseed: str = "0") -> list[dict] | None:
+    env = dict(os.environ, PYTHONDONTWRITEBYTECODE="1", PYTHONHASHSEED=hashseed)
     p = subprocess.run(
         [PYTHON, "-c", _FRESH_SNIPPET % {"verif": VERIF_ROOT}],
         input=json.dumps(jobs).encode(), capture_output=True, timeout=timeout, env=env, cwd="/",
